@@ -3,10 +3,18 @@
    (a crash leaves the effect of a prefix of atomic statements), for every statement sequence
    whatever the code issues; recovery from any such database yields the tower invariant; the
    primitive table updates of the tower model are such statements; the bootstrap/persist rules read
-   from main.rs and chain_monitor.rs.  The replay equivalence ("answered exactly as in an
-   uninterrupted run") is decided by fault enumeration on the real code (see the check), and is
-   REFUTED for a crash after a poll that delivered only a prefix of the blocks (F4). *)
-From TeosModel Require Import Base TxIndex Tower TowerStable TowerInv Crash.
+   from main.rs and chain_monitor.rs.
+   OPERATION level (second half of this file): every operation of the tower model has a durable
+   trace (CrashOps.op_micro: SQL statements, node RPCs and the instant of the reply, in program order,
+   tied to the code's H2 crash-point labels by the check); the model's step IS the execution of that
+   trace; for every reachable tower, operation, node script and crash index: integrity and the tower
+   invariant after restart, "never grants slots" (REFUTED in general: the known interrupted shrinking
+   update; proved outside it, with the exact window), the in-flight cost, "acknowledged work survives"
+   (rows disappear only through an explicit delete of the trace), "no receipt before the data is
+   durable", and the idempotence lemmas of replay.  The replay equivalence as a whole ("answered
+   exactly as in an uninterrupted run") stays decided by fault enumeration on the real code (see the
+   check), and is REFUTED for a crash after a poll that delivered only a prefix of the blocks (F4). *)
+From TeosModel Require Import Base TxIndex Tower TowerStable TowerInv TowerLedger Crash CrashOps CrashOpsProofs.
 From TeosModel.Gen Require Bootstrap.
 Local Open Scope N_scope.
 
@@ -73,3 +81,197 @@ Print Assumptions C03_recover_invariant.
 Print Assumptions C03_primitives_are_statements.
 Print Assumptions C03_inflight_costs_at_most_request.
 Print Assumptions C03_persistence_rules.
+
+(* ============================== operation level ============================== *)
+
+(* REFINEMENT: the table effect of any operation of the sequential tower model is the execution of
+   its durable trace; the RPCs it logs are the trace's RPC steps, in order *)
+Theorem C03_op_is_its_trace le t o sc :
+  not_abort (snd (step le t o sc)) ->
+  db_of (fst (step le t o sc)) = execs (db_of t) (stmts_of (op_micro le t o sc)).
+Proof. exact (op_is_its_trace le t o sc). Qed.
+
+Theorem C03_op_rpcs_are_its_trace le t o sc :
+  not_abort (snd (step le t o sc)) ->
+  rev (rpc_log (fst (step le t o sc))) = rpcs_of_micro (op_micro le t o sc).
+Proof. exact (op_rpcs_are_its_trace le t o sc). Qed.
+
+(* a kill after ANY number k of micro steps of ANY operation of a reachable tower: no dangling
+   records, and the restarted tower satisfies the tower invariant on exactly those tables *)
+Theorem C03_crash_integrity le k t o sc :
+  Inv t -> DbInv (crash_at le k t o sc) /\ Inv (restart t (crash_at le k t o sc)).
+Proof. exact (crash_integrity le k t o sc). Qed.
+
+Theorem C03_restart_keeps_tables t d : db_of (restart t d) = d.
+Proof. exact (db_of_restart t d). Qed.
+
+Theorem C03_crash_after_last_step le t o sc k :
+  not_abort (snd (step le t o sc)) -> (length (op_micro le t o sc) <= k)%nat ->
+  crash_at le k t o sc = db_of (fst (step le t o sc)).
+Proof. exact (crash_after_last_step le t o sc k). Qed.
+
+(* NEVER GRANTS: false as stated ... *)
+Theorem C03_never_grants_refuted :
+  exists le t o sc k v,
+    Inv t /\ not_abort (snd (step le t o sc)) /\ grant t o v = 0 /\
+    balance (db_of (restart t (crash_at le k t o sc))) v > balance (db_of t) v.
+Proof. exact never_grants_refuted. Qed.
+
+(* ... true outside the interrupted shrinking update (grant = the subscription slots a registration adds) ... *)
+Theorem C03_never_grants_outside_shrinking_update le t o sc k v :
+  Inv t -> not_abort (snd (step le t o sc)) -> ~ shrinking_update t o ->
+  balance (db_of (restart t (crash_at le k t o sc))) v <= balance (db_of t) v + grant t o v.
+Proof. exact (never_grants_outside_shrinking_update le t o sc k v). Qed.
+
+(* ... and it fails ONLY between the charge and the store of such an update *)
+Theorem C03_grant_only_in_shrinking_window le t o sc k v :
+  Inv t -> not_abort (snd (step le t o sc)) ->
+  balance (crash_at le k t o sc) v > balance (db_of t) v + grant t o v ->
+  exists loc b delay sig ui,
+    o = OAdd (Some v) loc b delay sig /\ shrinking_update t o /\ gk_get t v = Some ui /\
+    d_users (crash_at le k t o sc) = charged_users t v (add_charge t v ui loc b) /\
+    d_apps (crash_at le k t o sc) = db_apps t.
+Proof. exact (grant_only_in_shrinking_window le t o sc k v). Qed.
+
+(* every crash prefix of a block connection (purge, breaches, confirmations, the refund transaction,
+   reorg and stale rebroadcasts, drops): no balance above the one before the block *)
+Theorem C03_connect_never_grants le t hash txs sc :
+  Inv t -> not_abort (snd (step le t (OConnect hash txs) sc)) ->
+  all_prefixes (le_all (db_of t)) (db_of t) (op_stmts le t (OConnect hash txs) sc).
+Proof. exact (connect_never_grants le t hash txs sc). Qed.
+
+(* IN-FLIGHT COST: the requester loses at most the slots of the request being processed *)
+Theorem C03_inflight_cost le t signer loc b delay sig sc k v :
+  Inv t ->
+  (forall u ui, signer = Some u -> gk_get t u = Some ui -> u_slots ui + used_by t loc u < U32MOD) ->
+  let d' := db_of (restart t (crash_at le k t (OAdd signer loc b delay sig) sc)) in
+  let cost := if (match signer with Some u => N.eqb v u | None => false end) then slots_of (b_len b) else 0 in
+  balance (db_of t) v <= balance d' v + cost /\ davail (db_of t) v <= davail d' v + cost.
+Proof. exact (inflight_cost le t signer loc b delay sig sc k v). Qed.
+
+Theorem C03_register_never_costs le t u sc k v :
+  Inv t -> balance (db_of t) v <= balance (db_of (restart t (crash_at le k t (ORegister u) sc))) v.
+Proof. exact (register_never_costs le t u sc k v). Qed.
+
+(* ACKNOWLEDGED WORK SURVIVES.  Statement level, for every statement sequence: a row present before
+   and absent after implies a DELETE naming it (or its owner: cascade) was executed; its content
+   changes only through an UPDATE naming it *)
+Theorem C03_rows_only_deleted_explicitly l d uuid :
+  (has_app d uuid = true -> has_app (execs d l) uuid = true \/ exists s, In s l /\ deletes uuid s = true) /\
+  (has_trk d uuid = true -> has_trk (execs d l) uuid = true \/ exists s, In s l /\ deletes uuid s = true).
+Proof. exact (rows_only_deleted_explicitly l d uuid). Qed.
+
+Theorem C03_row_content_kept l d a :
+  In a (d_apps d) ->
+  In a (d_apps (execs d l)) \/ exists s, In s l /\ (deletes (app_uuid a) s = true \/ replaces (app_uuid a) s = true).
+Proof. exact (row_content_kept l d a). Qed.
+
+(* ... operation level: the receipt was returned before the kill (MAck among the first k micro steps);
+   whatever is executed later (`later`: any statements of completed or interrupted operations), after
+   a restart the row is there, or a DELETE naming it / its owner is in the traces, or it was dropped
+   as invalid on arrival (trigger in the cache, blob undecryptable, nothing stored) *)
+Theorem C03_acked_survives le t signer loc b delay sig sc k later st sg sl e :
+  snd (step le t (OAdd signer loc b delay sig) sc) = OAddRes (AddOk st sg sl e) ->
+  In MAck (firstn k (op_micro le t (OAdd signer loc b delay sig) sc)) ->
+  exists u, signer = Some u /\
+    let d := db_of (restart t (execs (crash_at le k t (OAdd signer loc b delay sig) sc) later)) in
+    (has_app d (loc, u) = true \/
+     (exists s, In s (op_stmts le t (OAdd signer loc b delay sig) sc ++ later) /\ deletes (loc, u) s = true) \/
+     (exists dispute, ti_get (w_cache t) loc = Some dispute /\ decrypt b dispute = None /\
+                      find_app (db_apps t) (loc, u) = None)).
+Proof. exact (acked_survives le t signer loc b delay sig sc k later st sg sl e). Qed.
+
+(* no receipt before the data is durable: nothing follows MAck, every statement precedes it *)
+Theorem C03_ack_after_durable le t o sc m1 m2 :
+  op_micro le t o sc = m1 ++ MAck :: m2 -> m2 = [] /\ stmts_of m1 = op_stmts le t o sc.
+Proof. exact (ack_after_durable le t o sc m1 m2). Qed.
+
+(* REPLAY, as far as proved (see CrashOpsProofs.replay_idempotent_partial for what is missing) *)
+Theorem C03_replay_idempotent_partial :
+  (forall le k t blocks tip s0, (k <= length (poll_blocks le t blocks))%nat ->
+     ds_lkb (poll_crash_at le k t blocks tip s0) = ds_lkb s0) /\
+  (forall t h t1, Inv t -> gk_block_connected t h = Ok tt t1 -> tr_gk_block (restart t (db_of t1)) h = []) /\
+  (forall sc t hash txs h t',
+     (forall a, In a (db_apps t) -> In (a_loc a) txs -> find_trk (db_trks t) (app_uuid a) <> None) ->
+     w_block_connected sc t (cache_block hash txs) h = Ok tt t' ->
+     exists invalid, db_of t' = match invalid with [] => db_of t | _ => exec (db_of t) (SDelApps invalid) end) /\
+  (forall d k k', trk_uuid k' = trk_uuid k -> exec (exec d (SInsTrk k)) (SInsTrk k') = exec d (SInsTrk k)) /\
+  (forall d us, exec (exec d (SDelApps us)) (SDelApps us) = exec d (SDelApps us)) /\
+  (forall d us, exec (exec d (SDelUsers us)) (SDelUsers us) = exec d (SDelUsers us)) /\
+  (forall d uuid h c, exec (exec d (SUpdTrk uuid h c)) (SUpdTrk uuid h c) = exec d (SUpdTrk uuid h c)).
+Proof. exact replay_idempotent_partial. Qed.
+
+Theorem C03_lkb_persisted_after_poll le t blocks tip s0 :
+  Bootstrap.POLL_PERSISTS_BETTER_TIP = true ->
+  ds_lkb (poll_crash_at le (S (length (poll_blocks le t blocks))) t blocks tip s0) = Some tip.
+Proof. exact (lkb_persisted_after_poll le t blocks tip s0). Qed.
+
+(* ---- non-vacuity: a concrete reachable tower (CrashOps.ex_t) and concrete operations ---- *)
+Definition mk (m : micro) : N :=
+  match m with
+  | MStmt (SInsUser _ _) => 1 | MStmt (SUpdUser _ _) => 2 | MStmt (SUpdSlots _ _) => 3 | MStmt (SDelUsers _) => 4
+  | MStmt (SInsApp _) => 5 | MStmt (SUpdApp _) => 6 | MStmt (SDelApps _) => 7 | MStmt (SInsTrk _) => 8
+  | MStmt (SUpdTrk _ _ _) => 9 | MStmt (STxn _) => 10 | MRpc (mk_rpc K_getraw _ _) => 20 | MRpc (mk_rpc K_send _ _) => 21
+  | MAck => 30
+  end.
+
+Example C03_ex_reachable : Inv ex_t /\ length (db_apps ex_t) = 2%nat /\ balance (db_of ex_t) 1 = 10 /\ balance (db_of ex_t) 2 = 10.
+Proof. split; [exact ex_t_inv|]. vm_compute. auto. Qed.
+
+(* the shrinking update: UPDATE users, UPDATE appointments, receipt *)
+Example C03_ex_update_trace : map mk (op_micro true ex_t ex_shrink []) = [2; 6; 30].
+Proof. vm_compute. reflexivity. Qed.
+
+(* ... killed after its first micro step: user 1 holds 12 slots instead of 10 (the witness of the refutation);
+   killed after the second or later: 10 again *)
+Example C03_ex_update_window :
+  balance (crash_at true 1 ex_t ex_shrink []) 1 = 12 /\ balance (crash_at true 2 ex_t ex_shrink []) 1 = 10 /\
+  shrinking_update ex_t ex_shrink.
+Proof. split; [vm_compute; reflexivity|]. split; [vm_compute; reflexivity|]. eexists. split; [vm_compute; reflexivity|vm_compute; reflexivity]. Qed.
+
+(* a new appointment (INSERT), acknowledged: the hypotheses of C03_acked_survives are met *)
+Example C03_ex_acked :
+  let o := OAdd (Some 2) 9 (mk_blob 9 (Some 29) 2049) 20 4 in
+  map mk (op_micro true ex_t o []) = [2; 5; 30] /\
+  snd (step true ex_t o []) = OAddRes (AddOk 120 4 7 420) /\ In MAck (firstn 3 (op_micro true ex_t o [])) /\
+  balance (crash_at true 1 ex_t o []) 2 = 8 /\ balance (crash_at true 2 ex_t o []) 2 = 10.
+Proof. vm_compute. repeat split; auto. Qed.
+
+(* a block with the dispute of user 1's appointment: getrawtransaction, sendrawtransaction, INSERT INTO trackers;
+   with a node that rejects the penalty: the two RPCs and the DELETE of the appointment *)
+Example C03_ex_connect_breach :
+  map mk (op_micro true ex_t (OConnect 5000 [7]) []) = [20; 21; 8] /\
+  map mk (op_micro true ex_t (OConnect 5000 [7]) [(9, (G_not_found, A_code (-26)))]) = [20; 21; 7] /\
+  not_abort (snd (step true ex_t (OConnect 5000 [7]) [])).
+Proof. vm_compute. auto. Qed.
+
+(* the appointment arriving AFTER its trigger (dispute 9 in the cache): charge, INSERT, the two RPCs, tracker, receipt *)
+Example C03_ex_add_triggered :
+  let t1 := fst (step true ex_t (OConnect 5000 [9]) []) in
+  map mk (op_micro true t1 (OAdd (Some 2) 9 (mk_blob 9 (Some 29) 100) 20 4) []) = [2; 5; 20; 21; 8; 30] /\
+  map mk (op_micro true t1 (OAdd (Some 2) 9 (mk_blob 9 None 100) 20 4) []) = [2; 30].
+Proof. vm_compute. auto. Qed.
+
+(* registration: INSERT for a new user, UPDATE for a known one; the reads: only the reply *)
+Example C03_ex_register_get :
+  map mk (op_micro true ex_t (ORegister 3) []) = [1; 30] /\ map mk (op_micro true ex_t (ORegister 1) []) = [2; 30] /\
+  map mk (op_micro true ex_t (OGet (Some 1) 7) []) = [30] /\ map mk (op_micro true ex_t ODisconnect []) = [].
+Proof. vm_compute. auto. Qed.
+
+Print Assumptions C03_op_is_its_trace.
+Print Assumptions C03_op_rpcs_are_its_trace.
+Print Assumptions C03_crash_integrity.
+Print Assumptions C03_restart_keeps_tables.
+Print Assumptions C03_crash_after_last_step.
+Print Assumptions C03_never_grants_refuted.
+Print Assumptions C03_never_grants_outside_shrinking_update.
+Print Assumptions C03_grant_only_in_shrinking_window.
+Print Assumptions C03_connect_never_grants.
+Print Assumptions C03_inflight_cost.
+Print Assumptions C03_register_never_costs.
+Print Assumptions C03_rows_only_deleted_explicitly.
+Print Assumptions C03_row_content_kept.
+Print Assumptions C03_acked_survives.
+Print Assumptions C03_ack_after_durable.
+Print Assumptions C03_replay_idempotent_partial.
+Print Assumptions C03_lkb_persisted_after_poll.
